@@ -3,7 +3,7 @@ PROPS = {
     "C14": dict(
         module="UpfVerif.Props.C14",
         streams=[dict(name="gtpu"),
-                 dict(name="buf", args=["net=182"], shards=2, shards_thorough=6, seed_per_shard=True, timeout=900, timeout_thorough=3000)],
+                 dict(name="buf", args=["net=250"], shards=2, shards_thorough=6, seed_per_shard=True, timeout=900, timeout_thorough=3000)],
         rule="grid QFI 0..63 x PDU type 0..15 x with/without container x payload lengths (alignment boundaries, "
              "sampled lengths; all 0..1500 in the thorough tier) + out-of-range QFI/PDU-type bytes; distinct = distinct input lines",
         exhaustive_quick=True, exhaustive_thorough=True,
@@ -54,6 +54,10 @@ _CTL_TB = ["model Model/Core.lean of internal/pfcp (handlers, Sess methods, tabl
            "reference data plane (mock forwarder.Driver) and simulated SMFs in /verif/harness; go-pfcp as encoder/decoder of the harness"]
 _CTL_ASSUME = ["single event loop (handlers run sequentially)", "map iteration order and driver answers are environment inputs (any order, any answer stream)",
                "timers are events (real timers set to 1 h)", "fewer than 2^64 sessions"]
+
+# C19 also over the S-ctl stream: messages carrying several usage reports with different triggers (the flag octets of each
+# report on the wire against the word the data plane produced it with)
+PROPS["C19"]["streams"].append(_ctl(13, "urr", cases=12, tcases=120))
 
 PROPS["C04"] = dict(
     module="UpfVerif.Props.C04",
@@ -135,7 +139,7 @@ PROPS["C08"] = dict(
 )
 PROPS["C10"] = dict(
     module="UpfVerif.Props.C10",
-    streams=[_ctl(6, "urr"), _ctl(10, "nodes", cases=12, tcases=120), dict(name="krep", args=["net=188"], shards=2, shards_thorough=8, seed_per_shard=True, timeout=900, timeout_thorough=3000)],
+    streams=[_ctl(6, "urr"), _ctl(10, "nodes", cases=12, tcases=120), dict(name="krep", args=["net=200"], shards=2, shards_thorough=8, seed_per_shard=True, timeout=900, timeout_thorough=3000)],
     rule="krep: gtp5g REPORT multicasts (1-6 usage reports over 1-5 sessions in one message, 64-bit volumes at boundaries, every single-cause trigger word and non-mapped words, "
          "unknown sessions / URRs) through the real buffnetlink listener and the running server to the SMF; ctl profile 'urr': report batches (1-3 usage reports, 64-bit counters at boundaries, single-cause and arbitrary triggers, START) for live / unknown / ended "
          "sessions and known / unknown URRs with every measurement-method x MNOP combination; node ids IPv4 and IPv6",
@@ -180,7 +184,7 @@ PROPS["C12"] = dict(
 )
 PROPS["C07"] = dict(
     module="UpfVerif.Props.C07",
-    streams=[_ctl(9, "mix"), dict(name="malformed", args=["net=208"], shards=4, shards_thorough=12, seed_per_shard=True, timeout=600, timeout_thorough=3000),
+    streams=[_ctl(9, "mix"), dict(name="malformed", args=["net=220"], shards=4, shards_thorough=12, seed_per_shard=True, timeout=600, timeout_thorough=3000),
              dict(name="drv", args=["corpus=/verif/corpus/drvmal.lines"], shards=2, shards_thorough=4, seed_per_shard=True)],
     rule="ctl 'mix' (junk, truncated, unknown-type datagrams inside valid histories, SEIDs at all boundary classes) + malformed stream: structure-aware mutations of "
          "valid PFCP messages (header fields, IE lengths, nested IEs, flag octets, ids) after valid prefixes, liveness probe after each datagram; drv: rule IEs (well-formed, C-TAG/S-TAG outer header creation, damaged copies) through the real gtp5g driver",
@@ -230,7 +234,7 @@ _DRV_ASSUME = ["IPv4 variants of F-TEID / UE IP address / outer header creation;
 PROPS["C02"] = dict(
     module="UpfVerif.Props.C02",
     streams=[dict(name="drv", args=["corpus=/verif/corpus/drvmal.lines"], shards=4, shards_thorough=16, seed_per_shard=True, timeout=600, timeout_thorough=3000),
-             dict(name="buf", args=["net=176"], shards=2, shards_thorough=6, seed_per_shard=True, timeout=900, timeout_thorough=3000)],
+             dict(name="buf", args=["net=244"], shards=2, shards_thorough=6, seed_per_shard=True, timeout=900, timeout_thorough=3000)],
     rule="S-drv: random Create/Update PDR/FAR grouped IEs built with go-pfcp: every field boundary+random, 0-3 QER ids / URR ids / SDF filters (grammar-generated flow descriptions, "
          "8% possibly invalid), PDI children and top-level children shuffled, all four source interfaces, OHC descriptions GTP-U/UDP/IPv4, SEIDs incl. 0, 1, 2^32, 2^63, 2^64-1; "
          "the request bytes are compared with the model and read back by the Lean reader against the IE's content; plus the S-full buffering stream: after every Update FAR "
@@ -306,7 +310,8 @@ PROPS["C20"] = dict(
 
 PROPS["C13"] = dict(
     module="UpfVerif.Props.C13",
-    streams=[dict(name="buf", args=["net=220"], shards=3, shards_thorough=12, seed_per_shard=True, timeout=900, timeout_thorough=3000)],
+    streams=[dict(name="buf", args=["net=232"], shards=3, shards_thorough=12, seed_per_shard=True, timeout=900, timeout_thorough=3000),
+             _ctl(12, "nodes", cases=12, tcases=120)],
     rule="S-full buffering stream: the real PfcpServer (event loop running) with the real Gtp5g driver around the simulated kernel, a simulated SMF, BUFFER multicasts fed to the real "
          "buffnetlink listener (with and without the 64-bit alignment PAD attribute), a UDP sink as gNB: sessions with 1-2 FARs (BUFF / BUFF|NOCP / FORW ...), 0-2 QERs (QFI 0, 1, 9, 63), 1-3 PDRs; "
          "notifications for live / unknown / ended sessions and known / unknown PDRs, action words BUFF, NOCP, both, neither, payloads of 0..1400 octets, bursts of 2-7 and of 500-620 packets "
@@ -334,7 +339,7 @@ _CONC_TB = ["Gen/Conc.lean regenerated from /repo by tools/extract (go/ssa): gor
             "Spec/ConcRules.lean: the ownership rule, constructor list, hand-over channels and the listed exceptions; the waits-for graph construction"]
 PROPS["C17"] = dict(
     module="UpfVerif.Props.C17",
-    streams=[dict(name="stop", args=["net=196"], race=True, shards=2, shards_thorough=8, seed_per_shard=True, timeout=900, timeout_thorough=3000)],
+    streams=[dict(name="stop", args=["net=208"], race=True, shards=2, shards_thorough=8, seed_per_shard=True, timeout=900, timeout_thorough=3000)],
     rule="T1: the regenerated access table (about 750 facts, 10 goroutine roots) evaluated by the kernel and again by the driver; S-stop under `go build -race`: notifications after the loop has ended "
          "(deterministic), and stress runs, each a child process with its own race log: the real PfcpServer + Gtp5g driver + periodic server, 2-3 SMFs with unsynchronised valid traffic and duplicates, "
          "2-4 report producers, 1-3 ms transaction timers with 1-3 retransmissions, injected periodic ticks, Stop at a random point (5-85 ms) followed by the driver's Close as pkg/app does; "
@@ -352,7 +357,7 @@ PROPS["C17"] = dict(
 )
 PROPS["C18"] = dict(
     module="UpfVerif.Props.C18",
-    streams=[dict(name="wedge", args=["net=204"], timeout=900, timeout_thorough=3000)],
+    streams=[dict(name="wedge", args=["net=216"], timeout=900, timeout_thorough=3000)],
     rule="T1: the waits-for graph of blocking sends computed from the regenerated facts (10 edges over 10 roots); S-wedge: the running stack with 20 / 100 / 300 (thorough: up to 1200) sessions of 1-2 periodic URRs, "
          "a tick of the common period injected inside the re-association that removes them all, data-plane latency 0-500 us on URR removal; liveness = a heartbeat answered after the burst",
     trusted_base=_CONC_TB + ["two-process abstraction of loop and periodic server (Props/C18 Step) as the reading of the two bounded queues"],
